@@ -68,7 +68,7 @@ def classes(split=None):
 
     def code_h(P):       # LB;->h calls LA;->m2 and reads LA;->a2 : a second caller for the symmetry checks
         return [0x0071, P.method('LA;', 'm2', 'V', ()), 0x0000, 0x0060, P.field('LB;', 'b1', 'I'), 0x001a, P.string('s-one'), 0x000e]
-    A = Cls('LA;', sfields=[Fld('a1', 'I', 9), Fld('a2', 'I', 9)],
+    A = Cls('LA;', sfields=[Fld('a1', 'I', 9), Fld('a1', 'J', 9), Fld('a2', 'I', 9)],
             dmethods=[Mth('m1', 'V', (), 9, Code(2, 0, 1, code_m1)), Mth('m2', 'V', (), 9, Code(0, 0, 0, rv))],
             vmethods=[Mth('v1', 'V', (), 1, Code(1, 1, 0, rv))])
     B = Cls('LB;', sfields=[Fld('b1', 'I', 9)], ifields=[Fld('b2', 'I', 1)],
@@ -162,7 +162,7 @@ def mk2(m):
 
 
 # ------------------------------------------------------------------ reference snapshot from the id tables (no androguard)
-DEFINED_FIELDS = {('LA;', 'a1', 'I'), ('LA;', 'a2', 'I'), ('LB;', 'b1', 'I'), ('LB;', 'b2', 'I')}
+DEFINED_FIELDS = {('LA;', 'a1', 'I'), ('LA;', 'a1', 'J'), ('LA;', 'a2', 'I'), ('LB;', 'b1', 'I'), ('LB;', 'b2', 'I')}
 DEFINED_METHODS = {('LA;', 'm1', 'V', ()), ('LA;', 'm2', 'V', ()), ('LA;', 'v1', 'V', ()), ('LB;', 'g', 'V', ()), ('LB;', 'h', 'V', ())}
 DEFINED_CLASSES = {'LA;', 'LB;'}
 
